@@ -1344,6 +1344,347 @@ func TestVerifC26Compute(t *testing.T) {
 	vs.Check(t, 2, c26ComputeProperty(st))
 }
 
+// ---------------------------------------------------------------------------
+// Scenario-focused differential: hand-written contract templates with drawn
+// parameters for the semantics that random programs reach too rarely - what
+// survives a reverted / halted callee (storage, transient storage, logs, balances,
+// warm sets, refunds, created accounts) and the create / SELFDESTRUCT life cycle
+// (EIP-6780) - each followed by probes that write what they see to storage.
+// ---------------------------------------------------------------------------
+
+var (
+	c26ScnA     = common.HexToAddress("0xc0de0000000000000000000000000000000000a1") // entry / caller / factory
+	c26ScnB     = common.HexToAddress("0xc0de0000000000000000000000000000000000b1") // callee
+	c26ScnX     = common.HexToAddress("0xe0a00000000000000000000000000000000000e1") // funded EOA
+	c26ScnFresh = common.HexToAddress("0xf5e5000000000000000000000000000000000001") // never in the pre-state
+)
+
+// c26Probe emits code that stores a value and the gas an operation costs.
+type c26Asm struct {
+	*ep.Asm
+	slot uint64
+}
+
+func (a *c26Asm) store() { a.PushU(a.slot).Op(ep.SSTORE); a.slot++ }
+
+// gasOf stores the gas consumed by body (which must leave one value, which is popped).
+func (a *c26Asm) gasOf(body func()) {
+	a.Op(ep.GAS)
+	body()
+	a.Op(ep.POP, ep.GAS, ep.SWAP1, ep.SUB)
+	a.store()
+}
+
+// call emits a call of the given kind; args in the usual order.
+func (a *c26Asm) call(kind byte, gas uint64, allGas bool, to common.Address, value uint64, inSize uint64) {
+	a.PushU(0).PushU(0).PushU(inSize).PushU(0)
+	if kind == ep.CALL || kind == ep.CALLCODE {
+		a.PushU(value)
+	}
+	a.PushAddr(to)
+	if allGas {
+		a.Op(ep.GAS)
+	} else {
+		a.PushU(gas)
+	}
+	a.Op(kind)
+}
+
+// c26CalleeCode: with empty calldata run the drawn effects and end with the drawn
+// outcome; with non-empty calldata report the transient slots into storage.
+func c26CalleeCode(rt *rapid.T, notes *[]string) []byte {
+	a := &c26Asm{Asm: ep.NewAsm(true), slot: 0x20}
+	note := func(f string, x ...any) { *notes = append(*notes, fmt.Sprintf(f, x...)) }
+	a.Op(ep.CALLDATASIZE)
+	a.IfElse(func() {
+		a.PushU(0).Op(ep.TLOAD)
+		a.store()
+		a.PushU(1).Op(ep.TLOAD)
+		a.store()
+		a.Op(ep.STOP)
+	}, nil)
+	n := 1 + ep.Uniform(rt, "n-effects", 5)
+	for i := 0; i < n; i++ {
+		switch ep.Uniform(rt, "effect", 8) {
+		case 0, 1:
+			k, v := uint64(ep.Uniform(rt, "sstore-slot", 2)), uint64(ep.Uniform(rt, "sstore-val", 3))
+			a.PushU(v).PushU(k).Op(ep.SSTORE)
+			note("sstore[%d]=%d", k, v)
+		case 2:
+			k, v := uint64(ep.Uniform(rt, "tstore-slot", 2)), uint64(1+ep.Uniform(rt, "tstore-val", 3))
+			a.PushU(v).PushU(k).Op(ep.TSTORE)
+			note("tstore[%d]=%d", k, v)
+		case 3:
+			a.PushU(0xabc).PushU(0).PushU(0).Op(ep.LOG0 + 1)
+			note("log")
+		case 4:
+			a.call(ep.CALL, 0, false, c26ScnX, 1, 0)
+			a.Op(ep.POP)
+			note("pay-eoa")
+		case 5:
+			a.PushAddr(c26ScnFresh).Op(ep.BALANCE, ep.POP)
+			a.PushU(1).Op(ep.SLOAD, ep.POP)
+			note("warm")
+		case 6:
+			a.call(ep.CALL, 0, false, c26ScnFresh, 1, 0)
+			a.Op(ep.POP)
+			note("pay-new-account")
+		case 7:
+			init := ep.Deployer([]byte{0x00}, true)
+			a.PushN(append(init, make([]byte, 32-len(init))...)).PushU(0).Op(ep.MSTORE)
+			a.PushU(uint64(len(init))).PushU(0).PushU(0).Op(ep.CREATE, ep.POP)
+			note("create")
+		}
+	}
+	switch ep.Uniform(rt, "outcome", 7) {
+	case 0, 1:
+		a.Op(ep.STOP)
+		note("-> stop")
+	case 2:
+		a.PushU(32).PushU(0).Op(ep.RETURN)
+		note("-> return")
+	case 3:
+		a.PushU(32).PushU(0).Op(ep.REVERT)
+		note("-> revert")
+	case 4:
+		a.Op(ep.INVALID)
+		note("-> invalid")
+	case 5:
+		l := a.NewLabel()
+		a.Bind(l)
+		a.Jump(l)
+		note("-> oog-loop")
+	case 6:
+		a.PushAddr(c26Pick(rt, "sd-beneficiary", c26ScnX, c26ScnFresh, c26ScnA, c26ScnB)).Op(ep.SELFDESTRUCT)
+		note("-> selfdestruct")
+	}
+	return a.MustBytes()
+}
+
+// c26CallerCode: own effects, the call, then probes.
+func c26CallerCode(rt *rapid.T, notes *[]string) []byte {
+	a := &c26Asm{Asm: ep.NewAsm(true), slot: 0x10}
+	note := func(f string, x ...any) { *notes = append(*notes, fmt.Sprintf(f, x...)) }
+	a.PushU(5).PushU(0).Op(ep.TSTORE)
+	if ep.Uniform(rt, "caller-sstore", 2) == 0 {
+		a.PushU(uint64(ep.Uniform(rt, "caller-sstore-val", 3))).PushU(0).Op(ep.SSTORE)
+	}
+	kind := c26Pick(rt, "call-kind", ep.CALL, ep.CALL, ep.DELEGATECALL, ep.CALLCODE, ep.STATICCALL)
+	gas := c26Pick(rt, "call-gas", uint64(0), 2300, 25_000, 50_000, 120_000)
+	all := ep.Uniform(rt, "call-all-gas", 2) == 0
+	val := uint64(ep.Uniform(rt, "call-value", 2))
+	a.call(kind, gas, all, c26ScnB, val, 0)
+	a.store()
+	note("caller: %s gas=%d all=%v value=%d", ep.OpName(kind), gas, all, val)
+	// what the caller sees afterwards
+	a.Op(ep.RETURNDATASIZE)
+	a.store()
+	for k := uint64(0); k < 2; k++ {
+		a.PushU(k).Op(ep.TLOAD)
+		a.store()
+		a.gasOf(func() { a.PushU(k).Op(ep.SLOAD) })
+		a.PushU(k).Op(ep.SLOAD)
+		a.store()
+	}
+	a.gasOf(func() { a.PushAddr(c26ScnFresh).Op(ep.BALANCE) })
+	for _, x := range []common.Address{c26ScnFresh, c26ScnX, c26ScnB} {
+		a.PushAddr(x).Op(ep.BALANCE)
+		a.store()
+	}
+	a.Op(ep.SELFBALANCE)
+	a.store()
+	a.PushAddr(c26ScnB).Op(ep.EXTCODESIZE)
+	a.store()
+	a.PushAddr(c26ScnFresh).Op(ep.EXTCODEHASH)
+	a.store()
+	// ask the callee for its transient storage
+	a.call(ep.CALL, 0, true, c26ScnB, 0, 1)
+	a.store()
+	if ep.Uniform(rt, "caller-outcome", 8) == 0 {
+		a.PushU(0).PushU(0).Op(ep.REVERT)
+		note("caller reverts")
+	} else {
+		a.Op(ep.STOP)
+	}
+	return a.MustBytes()
+}
+
+// c26FactoryCode: create a child (drawn initcode, value, CREATE/CREATE2), poke it,
+// report what is visible.
+func c26FactoryCode(rt *rapid.T, notes *[]string) []byte {
+	a := &c26Asm{Asm: ep.NewAsm(true), slot: 0x10}
+	note := func(f string, x ...any) { *notes = append(*notes, fmt.Sprintf(f, x...)) }
+	sd := func(ben int) []byte { // PUSH20 ben / ADDRESS ; SELFDESTRUCT
+		switch ben {
+		case 0:
+			return []byte{0x30, 0xff}
+		case 1:
+			return append(append([]byte{0x73}, c26ScnX[:]...), 0xff)
+		case 2:
+			return append(append([]byte{0x73}, c26ScnFresh[:]...), 0xff)
+		}
+		return append(append([]byte{0x73}, c26ScnA[:]...), 0xff)
+	}
+	ben := ep.Uniform(rt, "beneficiary", 4)
+	var init []byte
+	switch ep.Uniform(rt, "initcode", 6) {
+	case 0:
+		init = sd(ben)
+		note("init: selfdestruct(ben%d)", ben)
+	case 1, 2:
+		init = ep.Deployer(sd(ben), true)
+		note("init: deploy runtime selfdestruct(ben%d)", ben)
+	case 3:
+		init = ep.Deployer([]byte{0x00}, true)
+		note("init: deploy STOP")
+	case 4:
+		init = []byte{0x5f, 0x5f, 0xfd}
+		note("init: revert")
+	case 5:
+		init = []byte{0xfe}
+		note("init: invalid")
+	}
+	// initcode into memory, byte by byte via one or two words
+	padded := append(append([]byte{}, init...), make([]byte, 64-len(init))...)
+	a.PushN(padded[:32]).PushU(0).Op(ep.MSTORE)
+	a.PushN(padded[32:]).PushU(32).Op(ep.MSTORE)
+	value := c26Pick(rt, "endowment", uint64(0), 1, 1000)
+	create2 := ep.Uniform(rt, "create2", 2) == 0
+	if create2 {
+		a.PushU(0).PushU(uint64(len(init))).PushU(0).PushU(value).Op(ep.CREATE2)
+	} else {
+		a.PushU(uint64(len(init))).PushU(0).PushU(value).Op(ep.CREATE)
+	}
+	note("create2=%v endowment=%d", create2, value)
+	a.Op(ep.DUP1)
+	a.store() // child address (0 on failure) ; the address stays on the stack
+	poke := func(value uint64) {
+		a.PushU(0).PushU(0).PushU(0).PushU(0).PushU(value).Op(ep.DUP1+5, ep.GAS, ep.CALL)
+		a.store()
+	}
+	for i, n := 0, ep.Uniform(rt, "pokes", 3); i < n; i++ {
+		v := uint64(ep.Uniform(rt, "poke-value", 2))
+		poke(v)
+		note("poke value=%d", v)
+	}
+	for _, op := range []byte{ep.BALANCE, ep.EXTCODESIZE, ep.EXTCODEHASH} {
+		a.Op(ep.DUP1, op)
+		a.store()
+	}
+	for _, x := range []common.Address{c26ScnX, c26ScnFresh} {
+		a.PushAddr(x).Op(ep.BALANCE)
+		a.store()
+	}
+	a.Op(ep.SELFBALANCE)
+	a.store()
+	a.Op(ep.POP, ep.STOP)
+	return a.MustBytes()
+}
+
+func c26ScenarioProperty(st *vs.S) func(rt *rapid.T) {
+	return func(rt *rapid.T) {
+		c := &c26Case{pre: types.GenesisAlloc{}, refPre: refevm.World{}}
+		c.fork = c26Pick(rt, "fork", refevm.Cancun, refevm.Prague, refevm.Osaka)
+		c.cfg = c26Config(c.fork)
+		var notes []string
+		factory := ep.Uniform(rt, "scenario", 2) == 0
+		var codeA, codeB []byte
+		if factory {
+			codeA = c26FactoryCode(rt, &notes)
+			c.class("scenario:factory")
+		} else {
+			codeB = c26CalleeCode(rt, &notes)
+			codeA = c26CallerCode(rt, &notes)
+			c.class("scenario:callee-effects")
+			st := map[common.Hash]common.Hash{}
+			if ep.Uniform(rt, "callee-slot0", 2) == 0 {
+				st[common.Hash{}] = common.BigToHash(big.NewInt(1))
+			}
+			c.put(c26ScnB, 1, big.NewInt(10), codeB, st)
+		}
+		stA := map[common.Hash]common.Hash{}
+		if ep.Uniform(rt, "caller-slot0", 2) == 0 {
+			stA[common.Hash{}] = common.BigToHash(big.NewInt(1))
+		}
+		c.put(c26ScnA, 1, big.NewInt(5000), codeA, stA)
+		c.put(c26ScnX, 0, big.NewInt(1), nil, nil)
+		c.put(c26Addrs[0], 0, new(big.Int).Mul(c26Ether, big.NewInt(1000)), nil, nil)
+		if c.fork >= refevm.Prague {
+			c.put(params.WithdrawalQueueAddress, 1, big.NewInt(0), params.WithdrawalQueueCode, nil)
+			c.put(params.ConsolidationQueueAddress, 1, big.NewInt(0), params.ConsolidationQueueCode, nil)
+		}
+		excess := uint64(0)
+		random := common.Hash{2}
+		coinbase := c26Pick(rt, "coinbase", c26FreshAddr, c26ScnFresh, c26ScnX)
+		c.env = stEnv{Coinbase: coinbase, Difficulty: big.NewInt(0), Random: new(big.Int).SetBytes(random[:]), GasLimit: 30_000_000,
+			Number: 1, Timestamp: 1_700_000_000, BaseFee: big.NewInt(7), ExcessBlobGas: &excess}
+		maxBlobs, fraction := c26BlobSchedule(c.fork)
+		c.refEnv = &refevm.Env{Fork: c.fork, ChainID: big.NewInt(1), Coinbase: refevm.Addr(coinbase), Number: 1, Time: 1_700_000_000,
+			GasLimit: 30_000_000, BaseFee: big.NewInt(7), Random: refevm.Hash(random), MaxBlobsPerBlock: maxBlobs, BlobUpdateFraction: fraction,
+			DepositContract: refevm.Addr(c26DepositAddr)}
+		// one to three transactions: the scenario, possibly repeated, possibly followed
+		// by a direct call of the child created by the first one
+		ntx := 1 + ep.Uniform(rt, "ntx", 3)
+		for i := 0; i < ntx; i++ {
+			to := c26ScnA
+			if factory && i > 0 && ep.Uniform(rt, "poke-child-directly", 2) == 0 {
+				to = common.Address(refevm.CreateAddress(refevm.Addr(c26ScnA), 1))
+			}
+			gas := c26Pick(rt, "tx-gas", uint64(5_000_000), 3_000_000, 1_500_000, 500_000)
+			val := int64(ep.Uniform(rt, "tx-value", 2))
+			tx, err := types.SignNewTx(c26Keys[0], types.LatestSignerForChainID(big.NewInt(1)),
+				&types.LegacyTx{Nonce: uint64(i), GasPrice: big.NewInt(8), Gas: gas, To: &to, Value: big.NewInt(val)})
+			if err != nil {
+				rt.Fatalf("VERIF-HARNESS-BUG: sign: %v", err)
+			}
+			rto := refevm.Addr(to)
+			c.txs = append(c.txs, tx)
+			c.refTxs = append(c.refTxs, &refevm.Tx{Type: refevm.TxLegacy, From: refevm.Addr(c26Addrs[0]), Nonce: uint64(i), GasLimit: gas,
+				GasPrice: big.NewInt(8), To: &rto, Value: big.NewInt(val), Data: nil})
+			c.txNotes = append(c.txNotes, fmt.Sprintf("to=%x gas=%d value=%d", to, gas, val))
+		}
+		sc := st.Case()
+		ref, got, alloc, aerr := c26Run(c)
+		for _, cl := range c.classes {
+			sc.Class(cl)
+		}
+		sc.Class("fork:" + c.fork.String())
+		for _, n := range notes {
+			if strings.HasPrefix(n, "->") || strings.HasPrefix(n, "init:") {
+				sc.Class("scn:" + n)
+			}
+		}
+		for _, r := range ref.Receipts {
+			if r.Status {
+				sc.Class("receipt:ok")
+			} else {
+				sc.Class("receipt:failed:" + r.Err)
+			}
+		}
+		if ref.Stats.SelfDestructsFresh > 0 {
+			sc.Class("did:selfdestruct-same-tx")
+		}
+		if ref.Stats.SelfDestructs > ref.Stats.SelfDestructsFresh {
+			sc.Class("did:selfdestruct-old-contract")
+		}
+		if ref.Stats.Collisions > 0 {
+			sc.Class("did:create-collision")
+		}
+		nontrivial := ref.Stats.Frames >= 1 && ref.Stats.Steps >= 20 && ref.Stats.StateWrites >= 1
+		sc.NonTrivial(nontrivial, fmt.Sprintf("%v-%x-%d", c.fork, crypto.Keccak256(codeA, codeB)[:12], ntx))
+		sc.Sample(nontrivial, func() any { return map[string]any{"fork": c.fork.String(), "scenario": notes, "txs": c.txNotes} })
+		if diffs := c26Compare(c, ref, got, alloc, aerr); len(diffs) > 0 {
+			rt.Fatalf("geth's transition disagrees with the reference (kit/refevm) on a scenario:\n  %s\nscenario: %s\ncase:\n%s\ncode A:\n%scode B:\n%s",
+				strings.Join(diffs, "\n  "), strings.Join(notes, "; "), c.render(), ep.Disasm(codeA), ep.Disasm(codeB))
+		}
+	}
+}
+
+func TestVerifC26Scenarios(t *testing.T) {
+	st := vs.New("C26", t)
+	vs.Check(t, 1, c26ScenarioProperty(st))
+}
+
 func TestVerifC26Transition(t *testing.T) {
 	st := vs.New("C26", t)
 	d := c26Full
